@@ -9,6 +9,7 @@ construction (`Bootstrap.ci` is a Lean function) — plus the harness's replay o
 The statistical reading of "the resamples differ" is outside the model (partial, see the check).
 -/
 import FairModel.Lemmas.Bootstrap
+import FairModel.Lemmas.BootstrapSrc
 
 namespace C18
 open BaseMetrics Weights Bootstrap
@@ -131,5 +132,138 @@ example : (ci false (.const 7) exRows exIdxs [1/10, 1/2]).map (·.overall) = som
 /-- a ratio that is 0/0 in one resample makes `np.quantile` (no control features) return NaN -/
 example : (ci false (.w (.sel 1)) [⟨0, 1, 0, 0, 1⟩, ⟨0, 1, 1, 1, 1⟩] [[0, 0], [1, 0]] [1/2]).map (·.ratioBetween) =
     some [.nan] := by decide +kernel
+
+/-! ### 6. the same clauses for the model PARAMETRISED BY THE SOURCE
+
+`Generated/BootstrapSrc.lean` is rewritten from the Python `ast` of `_bootstrap.py` / `_metric_frame.py` on every run
+(harness/lifters/bootstrap.py): the `data.sample(..)` keywords, the seed of sample i, the loop count, which numpy
+quantile function with which method / axis / `q=` each path calls, how entry i of a `*_ci` list is assembled, and
+that every accessor receives `ci_quantiles` unchanged.  `Model/BootstrapSrc.lean` builds `ciSrc`, `drawCount`,
+`validResample`, `seedIndex`, `loopCount` from those values.  The theorems below hold for the values lifted from the
+current tree; an edit of the source changes the generated file and re-checks (or breaks) them. -/
+
+section Src
+open BootstrapSrc Generated.BootstrapSrc
+
+/-- `data.sample(frac=1, ..)`: a resample of n rows draws exactly n positions -/
+theorem src_draw_count (n : Nat) : drawCount n = n := drawCount_eq n
+
+/-- … with replacement: every list of n positions below n — repetitions allowed — is a possible resample,
+    and nothing else is -/
+theorem src_resample_shape (n : Nat) (idx : List Nat) :
+    validResample n idx = true ↔ (idx.length = n ∧ ∀ i ∈ idx, i < n) :=
+  ⟨validResample_length n idx, fun h => validResample_of_length n idx h.1 h.2⟩
+
+theorem src_with_replacement : sampleReplace = true ∧ validResample 3 [0, 0, 2] = true := by decide +kernel
+
+/-- `n_boot` resamples are drawn, the seed stream has `n_boot` entries derived from the user's `random_state`,
+    and resample i is seeded with entry i (distinct resamples use distinct entries) -/
+theorem src_seed_stream (B i j : Nat) :
+    loopCount B = B ∧ seedIndex i = some i ∧ (seedIndex i = seedIndex j → i = j) ∧
+    seedStreamSizeIsNSamples = true ∧ nSamplesIsNBoot = true ∧ randomStatePassed = true := by
+  refine ⟨loopCount_eq B, rfl, ?_, rfl, rfl, rfl⟩
+  intro h; rw [seedIndex_eq, seedIndex_eq] at h; exact Option.some.inj h
+
+/-- the Series path calls `np.quantile`, the DataFrame path `np.nanquantile`, both with numpy's default method
+    'linear' along the sample axis: the lifted quantile IS the modelled one -/
+theorem src_quantile_is_linear (frame : Bool) (xs : List XR) (q : Rat) :
+    quantileXRsrc frame xs q = quantileXR frame xs q ∧ seriesAxis = 0 ∧ frameAxis = 0 :=
+  ⟨quantileXRsrc_eq frame xs q, rfl, rfl⟩
+
+/-- the requested quantiles reach numpy in the order given at every call site, entry i of every `*_ci` list is row i
+    of the quantile array, shaped (name / columns / index) like the first aligned sample, and all six accessors are
+    filled -/
+theorem src_order_and_shape (qs : List Rat) :
+    qsUsed seriesQOrder qs = qs ∧ qsUsed frameQOrder qs = qs ∧
+    quantileArgs.all (· == "ci_quantiles") = true ∧ quantileArgs.length = 5 ∧
+    seriesShapeFromFirstSample = true ∧ frameShapeFromFirstSample = true ∧ frameAligned = true ∧
+    ciAccessors = ["by_group_ci", "difference_ci", "group_max_ci", "group_min_ci", "overall_ci", "ratio_ci"] := by
+  refine ⟨rfl, rfl, ?_, ?_, rfl, rfl, rfl, ?_⟩ <;> decide +kernel
+
+/-- the whole `*_ci` computation assembled from the lifted pieces is the modelled one -/
+theorem src_ci_eq (frame : Bool) (m : BMetric) (rows : List WRow) (idxs : List (List Nat)) (qs : List Rat) :
+    ciSrc frame m rows idxs qs = ci frame m rows idxs qs := ciSrc_eq frame m rows idxs qs
+
+theorem src_quantile_mono (xs : List Rat) (hne : xs ≠ []) (q1 q2 : Rat) (h0 : 0 ≤ q1) (h12 : q1 ≤ q2)
+    (h1 : q2 ≤ 1) : quantileBy seriesMethod xs q1 ≤ quantileBy seriesMethod xs q2 ∧
+      quantileBy frameMethod xs q1 ≤ quantileBy frameMethod xs q2 :=
+  ⟨quantileLinear_mono xs hne q1 q2 h0 h12 h1, quantileLinear_mono xs hne q1 q2 h0 h12 h1⟩
+
+theorem src_ci_length_and_order (frame : Bool) (m : BMetric) (rows : List WRow) (idxs : List (List Nat))
+    (qs : List Rat) (hq : ∀ q ∈ qs, 0 ≤ q ∧ q ≤ 1) (c : CI) (h : ciSrc frame m rows idxs qs = some c) :
+    Ordered qs c.overall ∧ c.byGroup.length = c.keys.length ∧ (∀ row ∈ c.byGroup, Ordered qs row) ∧
+    Ordered qs c.gmin ∧ Ordered qs c.gmax ∧ Ordered qs c.diffBetween ∧ Ordered qs c.diffOverall ∧
+    Ordered qs c.ratioBetween ∧ Ordered qs c.ratioOverall := by
+  rw [src_ci_eq] at h; exact ci_wellformed frame m rows idxs qs hq c h
+
+/-- every resample the lifted `data.sample` call can produce has n rows, so `count`'s overall CI is n -/
+theorem src_count_is_n (frame : Bool) (rows : List WRow) (idxs : List (List Nat)) (hn : 0 < rows.length)
+    (hne : idxs ≠ []) (hv : ∀ idx ∈ idxs, validResample rows.length idx = true) (qs : List Rat)
+    (hq : ∀ q ∈ qs, 0 ≤ q ∧ q ≤ 1) (c : CI) (h : ciSrc frame .count rows idxs qs = some c) :
+    ∀ v ∈ c.overall, v = .fin (rows.length : Rat) := by
+  rw [src_ci_eq] at h
+  exact count_overall_ci frame rows idxs rows.length hn hne
+    (fun idx hi => (validResample_length _ idx (hv idx hi)).1) qs hq c h
+
+example : (ciSrc false (.w (.sel 1)) exRows exIdxs [9/10, 1/10]).map (·.overall) =
+    some [.fin (9/10), .fin (1/2)] := by decide +kernel
+example : exIdxs.all (validResample exRows.length) = true := by decide +kernel
+
+end Src
+
+/-! ### 7. NaN handling and entry-wise independence (control features, several metrics) -/
+
+/-- what the code does with a group that is absent from some resamples: `by_group_ci` (and everything when control
+    features are present) goes through `np.nanquantile`, i.e. the quantile of the values of the resamples in which the
+    group occurs; only a group absent from EVERY resample gives NaN … -/
+theorem nan_skipped_in_frames (xs : List XR) (q : Rat) :
+    quantileXR true xs q = quantileXR true (xs.filter (fun x => !isNaN x)) q ∧
+    ((∀ x ∈ xs, x = .nan) → quantileXR true xs q = some .nan) ∧
+    (∀ l : List Rat, l ≠ [] → finOnly (xs.filter (fun x => !isNaN x)) = some l →
+      quantileXR true xs q = some (.fin (quantileLinear l q))) := by
+  refine ⟨?_, ?_, ?_⟩
+  · simp [quantileXR, quantileSkip, List.filter_filter]
+  · intro h
+    have : xs.filter (fun x => !isNaN x) = [] := by
+      rw [List.filter_eq_nil_iff]; intro x hx; rw [h x hx]; simp [isNaN]
+    simp [quantileXR, quantileSkip, this]
+  · intro l hne hf
+    have hl : (xs.filter (fun x => !isNaN x)) ≠ [] := by
+      intro h0; rw [h0] at hf; simp [finOnly] at hf; exact hne hf
+    simp [quantileXR, quantileSkip, hf, hl]
+
+/-- … whereas the Series path (`overall_ci` and the aggregates without control features) uses `np.quantile`:
+    one NaN resample value (e.g. a 0/0 ratio in one resample) makes the entry NaN at every quantile -/
+theorem nan_propagates_in_series (xs : List XR) (h : XR.nan ∈ xs) (q : Rat) : quantileXR false xs q = some .nan := by
+  have hne : xs.isEmpty = false := by cases xs <;> simp_all
+  have hany : xs.any isNaN = true := List.any_eq_true.mpr ⟨.nan, h, rfl⟩
+  simp [quantileXR, quantileProp, hne, hany]
+
+/-- the per-level computation is the resampled frame filtered by control level: picking the restricted positions
+    from the rows of level L gives the level-L rows of the resample, in drawing order -/
+theorem level_resample_is_filtered_resample (L : Nat) (tr : List TRow) (idx : List Nat) (h : ∀ i ∈ idx, i < tr.length) :
+    pick (levelRows L tr) (restrict L tr idx) = some (levelRows L (idx.filterMap (fun i => tr[i]?))) :=
+  pick_restrict L tr idx h
+
+/-- no cross-talk between control levels: changing rows of OTHER levels (labels, predictions, weights, groups) does
+    not change any `*_ci` entry of level L -/
+theorem no_cross_talk_between_levels (L : Nat) (m : BMetric) (tr1 tr2 : List TRow)
+    (htags : tr1.map (fun p => p.1) = tr2.map (fun p => p.1))
+    (hrows : ∀ (i : Nat) (p q : TRow), tr1[i]? = some p → tr2[i]? = some q → p.1 = L → p.2 = q.2)
+    (idxs : List (List Nat)) (qs : List Rat) : ciAt L m tr1 idxs qs = ciAt L m tr2 idxs qs := by
+  unfold ciAt
+  rw [levelRows_congr L tr1 tr2 htags hrows]
+  congr 1
+  exact List.map_congr_left (fun idx _ => restrict_congr L tr1 tr2 htags idx)
+
+/-- no cross-talk between metrics / levels of one frame: entry (i, j) of the frame's CI table is the CI of metric i at
+    level j alone — adding, removing or changing other metrics of the dict or other levels does not change it -/
+theorem frame_entrywise (ms : List BMetric) (levels : List Nat) (tr : List TRow) (idxs : List (List Nat)) (qs : List Rat)
+    (i j : Nat) (hi : i < ms.length) (hj : j < levels.length) :
+    ((ciFrame ms levels tr idxs qs)[i]?).bind (·[j]?) = some (ciAt levels[j] ms[i] tr idxs qs) := by
+  simp [ciFrame, hi, hj]
+
+example : ciAt 1 (.w (.sel 1)) [(0, ⟨0, 1, 1, 1, 1⟩), (1, ⟨0, 0, 1, 1, 1⟩), (1, ⟨1, 1, 0, 0, 1⟩)] [[2, 0, 1], [1, 1, 0]] [1/2] =
+    ci true (.w (.sel 1)) [⟨0, 0, 1, 1, 1⟩, ⟨1, 1, 0, 0, 1⟩] [[1, 0], [0, 0]] [1/2] := by decide +kernel
 
 end C18
